@@ -18,7 +18,7 @@ def shard_cases(cx, cases, nshards, prefix):
     return paths
 
 
-def tlc_conform(cx, cases, spec="LangCheck", prefix="lang", nshards=None, strip=("src",), timeout=1500):
+def tlc_conform(cx, cases, spec="LangCheck", prefix="lang", nshards=None, strip=("src",), timeout=3000):
     """Check every case row against the TLA+ specification with TLC.
 
     Returns (mismatches, unknown_ids): mismatches is a list of (id, spec_outcome_json).
